@@ -25,11 +25,11 @@ import (
 )
 
 type tcase struct {
-	Set     string      `json:"injector_set"`
-	Proto   string      `json:"protocol"`
-	Conn    string      `json:"connection_kind"` // normal | ja3-fails | ja4-fails
-	Form    string      `json:"client_header_form"`
-	Headers [][2]string `json:"client_headers"`
+	Set     string            `json:"injector_set"`
+	Proto   string            `json:"protocol"`
+	Conn    string            `json:"connection_kind"` // normal | ja3-fails | ja4-fails
+	Form    string            `json:"client_header_form"`
+	Headers [][2]string       `json:"client_headers"`
 	Outcome map[string]string `json:"injector_outcome_per_name"`
 }
 
@@ -38,6 +38,25 @@ func custom(prefix string) []reverseproxy.HeaderInjector {
 		fp.NewFingerprintHeaderInjector(prefix+"-Val", func(*metadata.Metadata) (string, error) { return "proxy-computed", nil }),
 		fp.NewFingerprintHeaderInjector(prefix+"-Empty", func(*metadata.Metadata) (string, error) { return "", nil }),
 		fp.NewFingerprintHeaderInjector(prefix+"-Err", func(*metadata.Metadata) (string, error) { return "", errors.New("cannot compute") }),
+	}
+}
+
+// ownInjector is an injector type of the embedding application (not built by the package's constructor),
+// whose header names are not in canonical form.
+type ownInjector struct {
+	name string
+	val  string
+	err  error
+}
+
+func (o ownInjector) GetHeaderName() string                        { return o.name }
+func (o ownInjector) GetHeaderValue(*http.Request) (string, error) { return o.val, o.err }
+
+func ownType() []reverseproxy.HeaderInjector {
+	return []reverseproxy.HeaderInjector{
+		ownInjector{"x-own-Val", "proxy-computed", nil},
+		ownInjector{"X-OWN-Empty", "", nil},
+		ownInjector{"X-oWn-TLS-Err", "", errors.New("cannot compute")},
 	}
 }
 
@@ -100,9 +119,9 @@ func main() {
 	be := rig.NewBackend(nil)
 	defer be.Close()
 	type pset struct {
-		name  string
-		px    *rig.Proxy
-		names []string
+		name    string
+		px      *rig.Proxy
+		names   []string
 		outcome map[string]string // per name on a normal connection: value | empty | error | by-conn
 	}
 	mk := func(name string, inj func() []reverseproxy.HeaderInjector, names []string, outcome map[string]string) *pset {
@@ -121,9 +140,15 @@ func main() {
 	def := []string{"X-JA3-Fingerprint", "X-JA4-Fingerprint", "X-HTTP2-Fingerprint"}
 	sets := []*pset{
 		mk("default", nil, def, nil),
-		mk("default+custom", func() []reverseproxy.HeaderInjector { return append(fingerproxy.DefaultHeaderInjectors(), custom("X-Custom")...) },
+		mk("default+custom", func() []reverseproxy.HeaderInjector {
+			return append(fingerproxy.DefaultHeaderInjectors(), custom("X-Custom")...)
+		},
 			append(append([]string{}, def...), "X-Custom-Val", "X-Custom-Empty", "X-Custom-Err"), nil),
 		mk("custom-only", func() []reverseproxy.HeaderInjector { return custom("X-Only") }, []string{"X-Only-Val", "X-Only-Empty", "X-Only-Err"}, nil),
+		mk("default+own-type", func() []reverseproxy.HeaderInjector {
+			return append(ownType(), fingerproxy.DefaultHeaderInjectors()...)
+		},
+			append([]string{"x-own-Val", "X-OWN-Empty", "X-oWn-TLS-Err"}, def...), nil),
 	}
 	for _, s := range sets {
 		defer s.px.Stop()
